@@ -53,14 +53,25 @@ def chain_archives(R, n):
                 name = name[-5:]
             k = R.random()
             if k < 0.55:
-                ents.append({"name": name, "kind": "link", "tgt": R.choice(tg)})
+                tgt = R.choice(tg)
+                if links and R.random() < 0.15:
+                    tgt = list(R.choice(links)) + R.choice([["O", "keep"], ["O", "new"], ["Jx", "n"], []])     # through an earlier link, by name
+                ents.append({"name": name, "kind": "link", "tgt": tgt})
                 links.append(name)
             elif k < 0.9:
-                ents.append({"name": name, "kind": "file", "tgt": []})
+                if links and R.random() < 0.3:
+                    # the same output name as an earlier link, spelled differently
+                    ln = R.choice(links)
+                    name = R.choice([["."] + list(ln), list(ln[:-1]) + ["x", "..", ln[-1]], list(ln)])
+                ents.append({"name": name, "kind": R.choice(["file", "file", "empty"]), "tgt": []})
                 dirs.append(name[:-1] or ["a"])
             else:
                 ents.append({"name": name, "kind": "dir", "tgt": []})
                 dirs.append(name)
+            # hostile attribute words (kind derivation must not open a way around the checks)
+            if R.random() < 0.35:
+                ents[-1]["attrv"] = R.choice({"link": ["noreparse", "reparse-only"], "file": ["reparse", "nounix", "readonly", "fifo", "reparse-nounix"],
+                                              "empty": ["reparse", "nounix"], "dir": ["nounix", "unixonly", "reparse"]}[ents[-1]["kind"]])
         outs.append(ents)
     return outs
 
@@ -132,6 +143,11 @@ def run(tier, rep, ev):
         [L(["b", "up"], [".."]), L(["a"], ["b"]), F(["a", "x1"]), L(["b", "up", "a"], ["..", "Jx"]), F(["a", "x2"])],
         [L(["b", "up"], ["."]), L(["a"], ["b"]), {"name": ["a", "d"], "kind": "dir", "tgt": []}, L(["b", "up", "up", "a"], [".."]), F(["a", "d", "x2"])],
     ]
+    for av in ("reparse", "reparse-nounix", "fifo", None):
+        for alias in ([".", "f"], ["f"], ["x", "..", "f"]):
+            for tail in (["O", "keep"], ["O", "new"]):
+                archives.append([L(["x"], ["."]), L(["x", "up"], [".."]), L(["f"], ["x", "up"] + tail), dict(F(alias), **({"attrv": av} if av else {}))])
+                archives.append([L(["x"], ["."]), L(["x", "up"], [".."]), F(["f"]), L(["a", "..", "f"], ["x", "up"] + tail), dict(F(["g"]), **({"attrv": av} if av else {}))])
     archives += chain_archives(R, 1500 if tier == "quick" else 30000)
     # random longer archives
     comps = ["a", "b", "c", "..", ".", "J"]
